@@ -127,6 +127,29 @@ def h_site(cx, site, basic, T, concrete_caps=False):
     for j in range(n):
         for t in range(T):
             M[j, t] = X[j][t]
+    # ---- the network's documented "more conservative" linear mode must respect the ratings as well: there acceptance is a
+    # conjunction of linear inequalities (|A| x <= L + tol), added to the solver exactly as the real code computed it
+    acc_lin = net.is_feasible(M, linear=True)
+    for tname, members in doc["transformers"].items():
+        cap = caps[tname]
+        L = cap * 1000 / 3 / VLN
+        bound = cap + 3 * VLN * core.sym_max(1e-5, 1e-7 * L) / 1000 + 1e-9 * cap
+        for t in range(T):
+            P = sum(VLL * X[ids.index(sid)][t] for sid in members) / 1000
+            label = "accepted_in_linear_mode=>power<=rating[%s,t=%d]" % (tname, t)
+            if cx.mode == "conc":
+                cx.check(label, or_(not bool(acc_lin), le(P, bound)))
+                continue
+            import time as _t
+
+            t0 = _t.time()
+            cx.solver.push()
+            cx.solver.add(core.toz3(acc_lin) if is_sym(acc_lin) else z3.BoolVal(bool(acc_lin)))
+            r = cx._check(z3.Not(le(P, bound).z3()), timeout=120000)
+            st_ = "unsat" if r == z3.unsat else ("sat" if r == z3.sat else "unknown")
+            asg = cx.model_assignment(cx.solver.model()) if r == z3.sat else None
+            cx.solver.pop()
+            cx.obligations.append(Obligation(label, st_, asg, None, _t.time() - t0))
     if cx.mode == "sym":
         cx.cones = []
     accepted = net.is_feasible(M)
